@@ -119,7 +119,11 @@ func main() {
 		if len(os.Args) < 4 {
 			usage()
 		}
-		os.Exit(replayCmd(os.Args[2], os.Args[3]))
+		mode := "finding" // known findings are surfaced
+		if len(os.Args) > 4 && os.Args[4] == "search" {
+			mode = "search" // known findings suppressed, as during the search
+		}
+		os.Exit(replayCmd(os.Args[2], os.Args[3], mode))
 	default:
 		usage()
 	}
@@ -218,7 +222,7 @@ func tail(b []byte, n int) string {
 	return strings.Join(lines, "\n")
 }
 
-func replayCmd(id, file string) int {
+func replayCmd(id, file, mode string) int {
 	if _, ok := props[id]; !ok {
 		fmt.Println("unknown property", id)
 		return 2
@@ -229,7 +233,7 @@ func replayCmd(id, file string) int {
 		return 2
 	}
 	abs, _ := filepath.Abs(file)
-	sig, msg, err := runReplay(bin, id, "quick", abs, "finding")
+	sig, msg, err := runReplay(bin, id, "quick", abs, mode)
 	if err != nil {
 		if props[id].DeathIsViolation {
 			fmt.Println("the process died while replaying:", err)
